@@ -54,6 +54,7 @@ type Mem struct {
 	FailFrom      int
 	FailN         int
 	failedWrites  int
+	failDelNth    int
 	// FailDeletesOnly restricts the fault window to direct deletes and batches containing deletes.
 	ReadFail func(key string) bool
 	// Yield, if set, is called (without holding the lock) before every read and every write reaches the
@@ -96,6 +97,13 @@ func (d *Mem) commit(ops []Op, batch bool) error {
 	defer d.mu.Unlock()
 	idx := d.writeAttempts
 	d.writeAttempts++
+	if d.failDelNth > 0 && hasDel(ops) {
+		d.failDelNth--
+		if d.failDelNth == 0 {
+			d.failedWrites++
+			return ErrInjected
+		}
+	}
 	if d.FailN > 0 && idx >= d.FailFrom && idx < d.FailFrom+d.FailN {
 		d.failedWrites++
 		return ErrInjected
@@ -107,6 +115,23 @@ func (d *Mem) commit(ops []Op, batch bool) error {
 		d.log = append(d.log, Entry{Batch: batch, Ops: cp})
 	}
 	return nil
+}
+
+func hasDel(ops []Op) bool {
+	for _, o := range ops {
+		if o.Del {
+			return true
+		}
+	}
+	return false
+}
+
+// ArmDeleteFault makes the n-th (1-based) write attempt from now that contains a delete - a direct Delete or
+// a batch commit with deletes - fail once (atomically); n <= 0 disarms.
+func (d *Mem) ArmDeleteFault(n int) {
+	d.mu.Lock()
+	d.failDelNth = max(n, 0)
+	d.mu.Unlock()
 }
 
 // SetFaults arms a fault window relative to the *current* number of write attempts.
